@@ -1040,7 +1040,15 @@ def r_clone_overhang(ctx: RuleCtx, col: Collector):
     sens = m.resolve_method(oh, "_sensitivity")
     ra, sa = _top_assigns(resp.node), _top_assigns(sens.node)
     carried = _loop_assigned(resp.node) | _loop_assigned(sens.node)
-    shared = [k for k in ra if k in sa and k not in carried and not k.startswith("<if>")]
+    # geometry only: locals defined from the inputs (the response's argument, the signals' states / sensitivities) are data,
+    # not part of the traversal set-up
+    data_pat = set(resp.pos_params()) | set(sens.pos_params())
+
+    def is_data(defs: List[str]) -> bool:
+        import re
+        return any(".state" in d or ".sensitivity" in d or any(re.search(rf"(?<![\w.]){re.escape(p_)}(?!\w)", d.split("=", 1)[-1]) for p_ in data_pat)
+                   for d in defs)
+    shared = [k for k in ra if k in sa and k not in carried and not k.startswith("<if>") and not (is_data(ra[k]) or is_data(sa[k]))]
     if len(shared) < 4:
         # set-up factored into a helper: single definition, nothing to compare
         col.ok("OverhangFilter", resp.rel, line_of(resp.node), "OverhangFilter: sweep set-up",
@@ -1052,7 +1060,7 @@ def r_clone_overhang(ctx: RuleCtx, col: Collector):
             col.bad("OverhangFilter", sens.rel, line_of(sens.node), f"OverhangFilter set-up '{k}'",
                     f"'{k}' is defined as {ra[k]} in _response but {sa[k]} in _sensitivity: the adjoint sweeps a "
                     f"different stencil / axis than the response")
-    if ra.get("<if>") != sa.get("<if>"):
+    if sorted(ra.get("<if>") or []) != sorted(sa.get("<if>") or []):
         col.bad("OverhangFilter", sens.rel, line_of(sens.node), "OverhangFilter set-up conditions",
                 f"conditional set-up differs: {ra.get('<if>')} vs {sa.get('<if>')}")
     # sweep direction
@@ -1066,10 +1074,63 @@ def r_clone_overhang(ctx: RuleCtx, col: Collector):
                 if adv is not None:
                     # the supporting layer: <layer index> - <step>, wherever it is formed (index store or a local)
                     for x in ast.walk(n):
-                        if isinstance(x, ast.Assign) and isinstance(x.value, ast.BinOp) and isinstance(x.value.op, ast.Sub) \
-                                and norm(x.value.left) == adv[0]:
-                            sup = (norm(x.value.left), norm(x.value.right))
+                        if isinstance(x, ast.BinOp) and isinstance(x.op, ast.Sub) and norm(x.left) == adv[0] and \
+                                isinstance(x.right, ast.Name):
+                            sup = (norm(x.left), norm(x.right))
         return adv, sup
+    # the response sweep written as a loop over explicit layer ranges: for i in (range(1, n) if step >= 0 else range(n-2, -1, -1))
+    def range_sweep(fn):
+        from .common import expand_names
+        for lp in [n for n in ast.walk(fn) if isinstance(n, ast.For) and isinstance(n.target, ast.Name)]:
+            sups = [x for x in ast.walk(lp) if isinstance(x, ast.BinOp) and isinstance(x.op, ast.Sub) and norm(x.left) == lp.target.id
+                    and isinstance(x.right, ast.Name)]
+            if not sups:
+                continue
+            its = [lp.iter]
+            if isinstance(lp.iter, ast.Name):
+                its = [d.value for d in ast.walk(fn) if isinstance(d, ast.Assign) and len(d.targets) == 1 and
+                       isinstance(d.targets[0], ast.Name) and d.targets[0].id == lp.iter.id]
+            alts = []
+            for it in its:
+                for e in ([it.body, it.orelse] if isinstance(it, ast.IfExp) else [it]):
+                    alts.append(e)
+            if not alts or not all(isinstance(e, ast.Call) and norm(e.func) == "range" for e in alts):
+                continue
+            return lp, sups[0], alts
+        return None
+    rs = range_sweep(resp.node)
+    if rs is not None and not any(isinstance(n, ast.While) for n in ast.walk(resp.node)):
+        lp, sup_e, alts = rs
+        for e in alts:
+            a = [norm(x) for x in e.args]
+            construct = f"OverhangFilter response sweep '{norm(e)}'"
+            if len(a) == 3 and a[2] == "-1":
+                # downwards: from the layer next to the base (n-2) down to and including layer 0
+                if a[1] == "-1":
+                    col.ok("OverhangFilter", resp.rel, line_of(e), construct, "reaches layer 0")
+                elif a[1] in ("0", "1"):
+                    col.bad("OverhangFilter", resp.rel, line_of(e), construct,
+                            f"the downward sweep stops before layer {a[1]} is processed (range excludes its stop value): the last "
+                            f"printed layer(s) keep their unfiltered densities while the sensitivity treats them as filtered")
+                else:
+                    raise AnalysisError(f"OverhangFilter: extent of the sweep '{norm(e)}' not recognised")
+            elif len(a) == 2 and a[0] == "1":
+                col.ok("OverhangFilter", resp.rel, line_of(e), construct, "from the layer above the base upwards")
+            elif len(a) >= 1 and a[0] == "0" or len(a) == 1:
+                col.bad("OverhangFilter", resp.rel, line_of(e), construct,
+                        "the upward sweep starts at the base layer, whose support (layer -1) wraps around to the top of the domain")
+            else:
+                raise AnalysisError(f"OverhangFilter: extent of the sweep '{norm(e)}' not recognised")
+        sadv, ssup = sweep(sens.node)
+        if None in (sadv, ssup):
+            raise AnalysisError("OverhangFilter: layer sweep not recognised")
+        if (norm(sup_e.left), norm(sup_e.right)) == ssup and sadv[1] == "-":
+            col.ok("OverhangFilter", sens.rel, line_of(sens.node), "OverhangFilter sweep direction",
+                   f"response reads its support from {norm(sup_e)}; sensitivity {sadv[0]} {sadv[1]}= {sadv[2]} pushes to {ssup[0]}-{ssup[1]}")
+        else:
+            col.bad("OverhangFilter", sens.rel, line_of(sens.node), "OverhangFilter sweep direction",
+                    f"response reads its support from {norm(sup_e)} but the sensitivity pushes to {ssup[0]}-{ssup[1]}")
+        return
     radv, rsup = sweep(resp.node)
     sadv, ssup = sweep(sens.node)
     if None in (radv, rsup, sadv, ssup):
